@@ -15,6 +15,7 @@ LEVEL_TEXT = ("Lean 4 theorems, for every distance table and every valid associa
               "a track expires exactly when last_update + max_idle < epoch(scene); predict advances only its scene by one, skip by n; an expired track is never continued; an id is handed out at most once and was expired; idle = unexpired tracks of the scene not updated in its current epoch; "
               "statistics count the live and the wasted store per shard. Differential run of the real trackers against the model with full dumps after every call.")
 LEVEL_NOTE = "Trusted: Lean kernel; model<->code tie sampled; kernel values observed, not modelled; GC-timing independence is proved for the observable projection (see theorems)."
+PARTIAL = ["C03_gc_unobservable for whole outcome sequences (bisimulation between runs with different auto-waste periodicities) is not proved in Lean; proved: collect is idempotent, idle_tracks and wasted() give the same answer whether or not the collection has run (C03_idle, C03_wasted_gc), a valid choice never continues an expired track whether collected or not (C03_never_continued); the rest of the clause is decided by the differential run over periodicities 0/1/3/100 and by the interleaved-vs-projected runs of C04"]
 TECHNIQUE = "Lean 4 proof (invariants by induction over operations, relational step with validated choice) with differential correspondence check"
 
 
